@@ -1,2 +1,48 @@
-From Coq Require Import ZArith List.
-From FV Require Import C14.SbsModel C14.SbsProofs.
+(* C14 (codec half) — non-vacuity examples for the hypotheses of SbsProps.v and concrete behaviour *)
+From Coq Require Import ZArith List Bool Lia.
+From FV Require Import Lib.RustInt C14.SbsModel C14.SbsProofs C14.SbsSpec C14.SbsRoundtrip.
+Import ListNotations.
+Open Scope Z_scope.
+
+Lemma bytes_ok l : forallb is_byteb l = true -> Forall is_byte l.
+Proof.
+  intros Hl. apply Forall_forall. intros b Hb. rewrite forallb_forall in Hl. specialize (Hl b Hb).
+  unfold is_byteb, is_byte in *. lia.
+Qed.
+
+(* specification example 2: {2, 33, 323} with BF 8, height 3 *)
+Example sbs_spec_example_2 :
+  decode [14; 33; 17; 1; 4; 2; 8] 0 (U32 - 1) = Ok [(2, 2); (33, 33); (323, 323)] [] /\
+  spec_decode [14; 33; 17; 1; 4; 2; 8] = SOk [(2, 2); (33, 33); (323, 323)] [] /\
+  encode_bf 8 [2; 33; 323] = Some [14; 33; 17; 1; 4; 2; 8].
+Proof. repeat split; vm_compute; reflexivity. Qed.
+
+(* the hypotheses of sbs_decode_matches_spec are met by an input that exercises a filled node,
+   early termination at the maximum, a bias and a non-empty remainder *)
+Example sbs_matches_spec_nonvacuous :
+  let data := [13; 3; 49; 77; 78] in     (* BF 4, height 3: filled node [0,16) then 16, 17; tail 77 78 *)
+  Forall is_byte data /\ Z.of_nat (length data) <= 2 ^ 27 /\
+  spec_decode data = SOk [(0, 15); (16, 16); (17, 17)] [77; 78] /\
+  decode data 5 21 = Ok [(5, 20); (21, 21)] [77; 78] /\
+  decode data 0 (U32 - 1) = Ok [(0, 15); (16, 16); (17, 17)] [77; 78].
+Proof.
+  cbv zeta. split; [apply bytes_ok; reflexivity|]. repeat split; vm_compute; try reflexivity; discriminate.
+Qed.
+
+(* truncated input and unsupported height are errors, not panics *)
+Example sbs_errors :
+  decode [31; 0; 0; 0] 0 (U32 - 1) = Err /\ decode [35] 0 (U32 - 1) = Err /\ decode [] 0 0 = Err /\
+  spec_decode [31; 0; 0; 0] = SErr.
+Proof. repeat split; vm_compute; reflexivity. Qed.
+
+(* extreme members; BF 2 cannot reach 2^32-1 and is upgraded to BF 4 *)
+Example sbs_extremes :
+  encode_bf 2 [4294967295] = Some [65; 136; 136; 136; 136; 136; 136; 136; 136] /\
+  decode [65; 136; 136; 136; 136; 136; 136; 136; 136] 0 (U32 - 1) = Ok [(4294967295, 4294967295)] [] /\
+  rt_ok 32 [0; 4294967295] = true /\ rt_ok 0 [] = true.
+Proof. repeat split; vm_compute; reflexivity. Qed.
+
+(* sbs_roundtrip_partial covers sets with filled nodes, e.g. m = 255 = {0..7}: a single filled BF-8 node *)
+Example sbs_roundtrip_nonvacuous :
+  subset_of_mask 255 = [0; 1; 2; 3; 4; 5; 6; 7] /\ encode_bf 8 (subset_of_mask 255) = Some [6; 0].
+Proof. split; vm_compute; reflexivity. Qed.
